@@ -1835,7 +1835,17 @@ def observe_xml_entry(repo: Repo):
     from sa.dom import ParserTok
     from sa.sym import ClassRef, explore
     seen = []
-    src = '<?xml version="1.0"?><svg xmlns="http://www.w3.org/2000/svg" viewBox="0 0 1 1"><!-- c --><path xlink:href="#a" d="M0,0"/></svg>'
+    body = '<svg xmlns="http://www.w3.org/2000/svg" viewBox="0 0 1 1"><!-- c --><path xlink:href="#a" d="M0,0"/></svg>'
+    src = '<?xml version="1.0"?>' + body
+    # the same document behind internal DTD subsets: the parser options may not depend on what the text declares
+    dtds = {
+        "an internal entity": '<!ENTITY st0 "fill:#F00;">',
+        "an external general entity (SYSTEM)": '<!ENTITY ext SYSTEM "file:///etc/passwd">',
+        "an external general entity (PUBLIC)": '<!ENTITY ext PUBLIC "-//X//Y" "file:///etc/passwd">',
+        "an external parameter entity": '<!ENTITY % ext SYSTEM "file:///tmp/x.dtd"> %ext;',
+        "a parameter entity split over lines": '<!ENTITY\n %\n ext\n SYSTEM "file:///tmp/x.dtd">\n%ext;',
+        "nested internal entities": '<!ENTITY a "aaaaaaaaaa"><!ENTITY b "&a;&a;&a;&a;&a;&a;&a;&a;"><!ENTITY c "&b;&b;&b;&b;&b;&b;&b;&b;">',
+    }
 
     class _File(Ext):
         def sym_getattr(self, it, attr):
@@ -1846,7 +1856,10 @@ def observe_xml_entry(repo: Repo):
         def sym_hasattr(self, it, attr):
             return attr == "read"
 
-    for entry, arg in (("fromstring", src), ("fromstring", src.encode("utf-8")), ("parse", _File())):
+    entries = [("fromstring", src), ("fromstring", src.encode("utf-8")), ("parse", _File())]
+    for what, decl in dtds.items():
+        entries.append((f"fromstring [document declaring {what}]", '<?xml version="1.0"?><!DOCTYPE svg [' + decl + ']>' + body))
+    for entry, arg in entries:
         def setup(it):
             from sa.dom import install_dom
             install_dom(it)
@@ -1854,7 +1867,7 @@ def observe_xml_entry(repo: Repo):
             it._seen_ref = seen
 
         from sa.sym import method_of
-        fn = method_of(repo, "svg", "SVG", entry)
+        fn = method_of(repo, "svg", "SVG", entry.split(" ")[0])
         box = {}
 
         def setup2(it, setup=setup):
@@ -1887,7 +1900,10 @@ def check_xml_entry(repo: Repo, rep: Report, rule: str, need: Dict[str, object],
             probs.append(f"SVG.{entry} parses with etree.{api} without an explicit parser (lxml defaults: comments kept, entities resolved)")
             continue
         for k, v in need.items():
-            if parser.options.get(k, "<default>") != v:
+            got = parser.options.get(k, "<default>")
+            if k == "resolve_entities" and v is False and (got == "internal" or (got is True and "[document declaring" in entry and "external" not in entry and "parameter" not in entry)):
+                continue  # expanding entities whose text is in the document itself reads nothing external
+            if got != v:
                 probs.append(f"SVG.{entry}: XMLParser option {k} is {parser.options.get(k, '<lxml default>')!r}; {v!r} is required")
         for k in forbid:
             if parser.options.get(k) not in (None, False) and not (k == "no_network" and parser.options.get(k) is True):
@@ -1988,9 +2004,14 @@ def check_prune(repo: Repo, rep: Report, rules: Dict[str, str]):
     probs = {"shapes": [], "subpaths": [], "area": []}
     asked = []
 
-    def area(g):
+    def area(g, rule="nonzero"):
         t = repr(g)
+        if "(70, 70)" in t or "(80, 80)" in t:
+            return 0 if rule == "evenodd" else 7  # a contour drawn twice in the same direction: nothing under evenodd
         return 0 if ("(50, 50)" in t or "(60, 60)" in t) else 7
+
+    def twice(i):
+        return pd(("M", (i, i)), ("L", (i + 2, i)), ("L", (i + 2, i + 2)), ("Z", ()), ("M", (i, i)), ("L", (i + 2, i)), ("L", (i + 2, i + 2)), ("Z", ()))
 
     def tri(i):
         return pd(("M", (i, i)), ("L", (i + 2, i)), ("L", (i + 2, i + 2)), ("Z", ()))
@@ -2010,10 +2031,14 @@ def check_prune(repo: Repo, rep: Report, rules: Dict[str, str]):
             El("path", {"id": "moves", "d": pd(("M", (1, 1)), ("M", (2, 2))), "stroke": "red"}),
             El("rect", {"id": "rect", "width": "3", "height": "2"}),
             El("path", {"id": "faint", "d": tri(24), "opacity": "0.004", "fill-opacity": "0.5"}),
+            # the same outline judged twice under different fill rules (rule from a style declaration / from the attribute), in both orders
+            El("path", {"id": "twice-eo-style", "d": twice(70), "style": "fill-rule:evenodd"}), El("path", {"id": "twice-nz", "d": twice(70)}),
+            El("path", {"id": "twice-nz-2", "d": twice(80)}), El("path", {"id": "twice-eo-attr", "d": twice(80), "fill-rule": "evenodd"}),
+            El("g", {"fill-rule": "evenodd", "id": "geo"}, [El("path", {"id": "twice-eo-inherited", "d": twice(80)}), El("path", {"id": "twice-nz-own", "d": twice(80), "fill-rule": "nonzero"})]),
         ]
         return El("svg", {"viewBox": "0 0 100 100"}, kids, name="root")
 
-    want_left = ["painted", "flat-stroked", "flat-inherits-stroke", "sibling", "evenodd", "rect", "faint"]
+    want_left = ["painted", "flat-stroked", "flat-inherits-stroke", "sibling", "evenodd", "rect", "faint", "twice-nz", "twice-nz-2", "twice-nz-own"]
 
     def extra(it):
         base = it.hooks[("svg_pathops", "path_area")]
@@ -2172,8 +2197,16 @@ def check_history_independence(repo: Repo, rep: Report, rule: str):
         it.call(method_of(repo, "svg", "SVG", "topicosvg"), [s], {"inplace": True, "allow_text": True})
         return s.f["svg_root"]
 
+    def prefixed_doc():
+        # svg content written with a prefix while the default namespace is another vocabulary: what happens to its
+        # un-namespaced attributes may not depend on the documents seen before
+        r = _order_doc()
+        r._nsmap = {"svg": "http://www.w3.org/2000/svg", None: "http://www.w3.org/1999/xhtml", "xlink": "http://www.w3.org/1999/xlink"}
+        return r
+
     results = {}
-    for name, docs in (("alone", [_order_doc]), ("after another document", [other_doc, _order_doc])):
+    for name, docs in (("alone", [_order_doc]), ("after another document", [other_doc, _order_doc]),
+                       ("prefixed alone", [prefixed_doc]), ("prefixed after another document", [_order_doc, prefixed_doc])):
         Interp._modcache = {}
 
         def body(it, a, k, docs=docs):
@@ -2184,6 +2217,8 @@ def check_history_independence(repo: Repo, rep: Report, rule: str):
         outs = ok_outcomes(run(repo, body, lambda: ([], {}), max_paths=256, area=_pipeline_area), F)
         results[name] = sorted({("raises " + o.raised) if o.raised else repr(_full_struct(o.value, attr_order=True)) for o in outs})
     Interp._modcache = {}
+    if results["alone"] == results["after another document"] and results["prefixed alone"] != results["prefixed after another document"]:
+        results["alone"], results["after another document"] = results["prefixed alone"], results["prefixed after another document"]
     if results["alone"] != results["after another document"]:
         a, b = results["alone"], results["after another document"]
         diff = "different results"
@@ -2194,7 +2229,7 @@ def check_history_independence(repo: Repo, rep: Report, rule: str):
             pass
         rep.fail(rule, F, "conversion after another conversion in the same process", "the result of converting a document depends on the documents converted before it in the same process: " + diff, svg, svg.func("SVG.topicosvg"))
     else:
-        rep.ok(rule, F + " [history]", "schematic document converted alone and after another document (same ids, other view box and paints) in one interpreter with persistent caches: identical results", True)
+        rep.ok(rule, F + " [history]", "schematic document converted alone and after another document (same ids, other view box and paints), and a document whose svg content is prefixed under a foreign default namespace alone and after an ordinary one, in one interpreter with persistent caches: identical results", True)
 
 
 # =========================================================================================== command line
